@@ -5,6 +5,7 @@ import TantivyModel.Proofs.PostingsRoundtrip
 import TantivyModel.Proofs.BlockSearch
 import TantivyModel.Proofs.CursorSeek
 import TantivyModel.Proofs.Positions
+import TantivyModel.Proofs.TermInfoStore
 /-!
 # C07 — The inverted index records exactly the terms, documents, frequencies, positions
 
@@ -150,6 +151,27 @@ theorem C07_positions_addressing (c : Cfg) (hB : 0 < c.B) (hS : 2 ≤ c.S) (hP :
       (((perDoc.take i).map List.length).sum) (perDoc.getD i []).length = some (perDoc.getD i []) :=
   Positions.read_slice c hB hS hP perDoc i hi
 
+/-! ### TermInfoStore -/
+
+/-- **TermInfoStore round trip.** For every list of TermInfos whose ranges are ordered, below `2^56`
+(`extract_bits` asserts widths ≤ 56) and back to back inside each block of `BL` terms, the store
+returns for ordinal `n` the `n`-th TermInfo written: reference TermInfo of the block for
+`n % BL = 0`, otherwise the bit-packed deltas read through the unaligned 8-byte window, the end of
+a range being the start of the next entry (or the appended final ends). -/
+theorem C07_terminfo_roundtrip (BL : Nat) (hBL : 0 < BL) (tis : List TermInfoStore.TermInfo)
+    (G : TermInfoStore.GoodStore BL tis) (n : Nat) (hn : n < tis.length) :
+    TermInfoStore.get BL (TermInfoStore.write BL tis) n = some tis[n] :=
+  TermInfoStore.get_write BL hBL tis G n hn
+
+/-- the bit-level core: a field written by `BitPacker::write` after any prefix is read back by
+`extract_bits` at the prefix's bit length, whatever bytes follow the flushed stream -/
+theorem C07_extract_bits_field (pre : List (Nat × Nat)) (v w : Nat) (post : List (Nat × Nat))
+    (hall : TermInfoStore.AllLt (pre ++ (v, w) :: post)) (hw : w ≤ 56) (rest : List Nat)
+    (hrest : TermInfoStore.Bytes rest) :
+    TermInfoStore.extractBits (TermInfoStore.bitBytes (pre ++ (v, w) :: post) ++ rest)
+      (TermInfoStore.totalBits pre) w = v :=
+  TermInfoStore.extractBits_field pre v w post hall hw rest hrest
+
 /-! ### field norms -/
 
 theorem fieldnorm_roundtrip (i : Nat) (hi : i < 256) :
@@ -231,6 +253,24 @@ example : run cfg .positions (Cursor.init (chunkBlocks cfg .positions 0 [0, 3, 4
 example : (5 : Nat) < Gen.Postings.BITWIDTH_LIMIT ∧ encodeBitwidth 5 true = 69 := by decide
 example : (invert [[[⟨[97], 0, 1⟩, ⟨[98], 1, 1⟩], [⟨[97], 0, 1⟩]], [], [[⟨[98], 0, 1⟩]]]).terms =
     [([97], [⟨0, 2, [0, 3]⟩]), ([98], [⟨0, 1, [1]⟩, ⟨2, 1, [0]⟩])] := by decide
+example : 0 < TermInfoStore.BLOCK_LEN ∧ TermInfoStore.BLOCK_LEN = 256 := by decide
+theorem C07_terminfo_example_good :
+    TermInfoStore.GoodStore 2 [⟨512, 51, 57, 110, 134⟩, ⟨3, 57, 60, 134, 134⟩, ⟨9, 70, 100, 140, 150⟩] := by
+  refine ⟨?_, ?_, ?_⟩
+  · intro t ht
+    simp at ht
+    rcases ht with rfl | rfl | rfl <;> simp
+  · intro t ht
+    simp at ht
+    rcases ht with rfl | rfl | rfl <;> simp
+  · intro i hi hmod
+    have : i = 0 ∨ i = 1 := by simp at hi; omega
+    rcases this with rfl | rfl
+    · simp
+    · simp at hmod
+example : TermInfoStore.get 2 (TermInfoStore.write 2
+    [⟨512, 51, 57, 110, 134⟩, ⟨3, 57, 60, 134, 134⟩, ⟨9, 70, 100, 140, 150⟩]) 1 = some ⟨3, 57, 60, 134, 134⟩ :=
+  C07_terminfo_roundtrip 2 (by decide) _ C07_terminfo_example_good 1 (by simp)
 example : FieldNorm.fieldnormToId FieldNorm.table 41 = 40 ∧ FieldNorm.idToFieldnorm FieldNorm.table 41 = 42 := by
   decide +kernel
 
